@@ -50,7 +50,7 @@ fn snapshot(store: &FeoxStore, keys: &[Vec<u8>]) -> Value {
                    "at": r.sector, "klen": r.key.len(), "resident": r.resident})
         })
         .collect();
-    json!({"recs": recs, "free": store.verif_free_runs(), "disk_usage": store.verif_disk_usage() / 4096,
+    json!({"recs": recs, "free": store.verif_free_runs(), "disk_usage": crate::absdev::blocks_exact(store.verif_disk_usage()),
            "len": store.len()})
 }
 
@@ -405,6 +405,11 @@ pub fn main(args: &[String]) -> i32 {
         std::fs::write(&path, &img).expect("write restart image");
         raw1.push(RawEv { seq: 0, tid: 0, kind: "crash", key: Vec::new(), a: 0, b: 0, c: 0, data: serde_json::to_vec(&chosen).unwrap() });
         prev_raw.extend(raw1);
+        if ttl && rng.random_bool(0.5) {
+            // the store stays closed for a while: records with a TTL expire before it is reopened
+            now += 5 * E9;
+            feoxdb::verif::set_now(now);
+        }
         prev_raw.push(RawEv { seq: 0, tid: 0, kind: "vtick", key: Vec::new(), a: now, b: 0, c: 0, data: Vec::new() });
         obs::install();
         store = match build(&path, blocks, ttl, cache) {
